@@ -589,7 +589,7 @@ def classify_loss(lost, maybe_handed, cancelled_recvs) -> str | None:  # noqa: A
             for a, callseq, endseq in cancelled_recvs:
                 if (
                     a in candidates
-                    and a.mode == "native"
+                    and a.mode != "scope"
                     and callseq < seq < endseq
                     and a.cancel_issued_seq is not None
                     and a.cancel_issued_seq > seq
@@ -618,7 +618,7 @@ def gen_c12(rng: random.Random, cfgs: list[str]) -> dict:
             if role == "S" and rng.random() < 0.5:
                 ops.append(["close", rng.randint(0, 3), False])
 
-            actors.append({"role": role, "mode": rng.choice(["scope", "native"]), "ops": ops})
+            actors.append({"role": role, "mode": rng.choice(["scope", "native", "native-in-group"]), "ops": ops})
 
     agents = []
     for _ in range(rng.choice([0, 1, 2, 2, 3])):
@@ -634,7 +634,7 @@ def sweep_c12(cfgs: list[str]):  # noqa: ANN201
     sender(s) + a receiver, victim cancelled at every cycle, both placements, both kinds."""
     for cfg in cfgs:
         for cap in (0, 1, "inf"):
-            for mode in ("scope", "native"):
+            for mode in ("scope", "native", "native-in-group"):
                 for place in ("before", "after"):
                     for at in range(0, 9):
                         for send_nowait in (False, True):
@@ -700,7 +700,7 @@ def gen_c13(rng: random.Random, cfgs: list[str]) -> dict:
                     if rng.random() < 0.3:
                         ops.append(["clone", 0])
 
-            actors.append({"role": role, "mode": rng.choice(["scope", "scope", "native"]),
+            actors.append({"role": role, "mode": rng.choice(["scope", "scope", "native", "native-in-group"]),
                            "ops": ops})  # fmt: skip
 
     agents = []
